@@ -125,6 +125,37 @@ pub fn run(ctx: &Ctx) -> Result<()> {
 		});
 		*stats.entry("task_reads".into()).or_insert(0) += per * ntasks;
 	}
+	// large ranges (1..3 MiB, what a bounding-box stream reads per chunk) from several OS threads at once
+	{
+		let big = std::fs::canonicalize(&ctx.out)?.join("offsets_big.bin");
+		let words_big: u64 = 3 << 20; // 24 MiB
+		make_file(&big, words_big)?;
+		let size_big = words_big * 8;
+		let reader: Arc<DataReaderFile> = Arc::from(DataReaderFile::open(&big)?);
+		let rounds = if ctx.thorough { 60 } else { 12 };
+		let mut hs = Vec::new();
+		for t in 0..8u64 {
+			let reader = reader.clone(); let bad = bad.clone(); let first_bad = first_bad.clone();
+			let seed = ctx.seed * 77 + t;
+			hs.push(std::thread::spawn(move || {
+				let rt = tokio::runtime::Builder::new_current_thread().build().unwrap();
+				let mut rng = Rng::new(seed);
+				for _ in 0..rounds {
+					let len = *rng.pick(&[1u64 << 20, (1 << 20) + 13, 3 << 20, 2_500_000]);
+					let off = rng.below(size_big - len);
+					let ok = match rt.block_on(reader.read_range(&ByteRange::new(off, len))) {
+						Ok(b) => b.len() == len && { let s = b.as_slice(); let e0 = expected(off, 64); let tail = expected(off + len - 64, 64); let mid = len / 2; let em = expected(off + mid, 64);
+							s[..64] == e0[..] && s[(len - 64) as usize..] == tail[..] && s[mid as usize..(mid + 64) as usize] == em[..] },
+						Err(_) => false };
+					if !ok { bad.fetch_add(1, Ordering::SeqCst); let mut g = first_bad.lock().unwrap(); if g.is_none() { *g = Some((off, len)); } }
+				}
+			}));
+		}
+		for h in hs { h.join().unwrap(); }
+		*stats.entry("thread_reads".into()).or_insert(0) += 8 * rounds;
+		*stats.entry("large_reads".into()).or_insert(0) += 8 * rounds;
+		let _ = std::fs::remove_file(&big);
+	}
 	// reader level: concurrent single-tile lookups on one freshly opened (cold) container reader
 	{
 		use versatiles_container::{get_reader, write_to_filename};
